@@ -17,18 +17,22 @@ def ensure_deps(verbose=False):
     """Offline, idempotent: make hypothesis (and jsonschema, optional) importable."""
     deps = os.path.join(core.VERIF, ".deps")
     need = []
-    for mod in ("hypothesis", "jsonschema"):
+    if deps not in sys.path and os.path.isdir(deps):
+        sys.path.append(deps)
+    import importlib.util
+    for mod in ("hypothesis", "jsonschema", "atheris"):     # atheris is optional (coverage-guided campaigns only)
         try:
-            importlib.import_module(mod)
+            if importlib.util.find_spec(mod) is None:
+                need.append(mod)
         except Exception:
             need.append(mod)
     if need:
         os.makedirs(deps, exist_ok=True)
-        cmd = [sys.executable, "-m", "pip", "install", "-q", "--no-index", "--find-links", WHEELS,
-               "--target", deps] + need
-        r = subprocess.run(cmd, stdout=subprocess.PIPE, stderr=subprocess.STDOUT, text=True)
-        if verbose or r.returncode != 0:
-            sys.stderr.write(r.stdout)
+        for pkg in need:        # one at a time: a missing optional wheel must not block the others
+            cmd = [sys.executable, "-m", "pip", "install", "-q", "--no-index", "--find-links", WHEELS, "--target", deps, pkg]
+            r = subprocess.run(cmd, stdout=subprocess.PIPE, stderr=subprocess.STDOUT, text=True)
+            if verbose or (r.returncode != 0 and pkg == "hypothesis"):
+                sys.stderr.write(r.stdout)
         if deps not in sys.path:
             sys.path.append(deps)
         importlib.invalidate_caches()
@@ -338,8 +342,21 @@ def run_check(prop, tier, seed_value, examples=None, only_profile=None, workers=
             futs = [ex.submit(enum_worker, j) for j in enum_jobs] + [ex.submit(shard_worker, j) for j in jobs]
             results = [f.result() for f in futs]
 
+    # --- 2b. coverage-guided campaigns (atheris/libFuzzer through the same strategy and oracle) -------------------
+    fuzz_info = {}
+    for pname, prof in mod.PROFILES.items():
+        if not prof.fuzz or (only_profile and pname != only_profile) or examples is not None:
+            continue
+        runs = prof.fuzz[0] if tier == "quick" else prof.fuzz[1]
+        if runs <= 0:
+            continue
+        fuzz_info[pname] = run_fuzz_campaign(prop, pname, runs, seed_value, nproc)
     merged = {}
     found = []
+    for pname, info in fuzz_info.items():
+        for v in info.pop("violations"):
+            found.append({"case": v["case"], "failures": [tuple(f) for f in v["failures"]], "shard": "fuzz", "profile": pname})
+        harness_errors.extend(info.pop("errors"))
     for r in results:
         pname = r["profile"]
         if "fatal" in r:
@@ -415,6 +432,10 @@ def run_check(prop, tier, seed_value, examples=None, only_profile=None, workers=
     }
     if enumerated:
         coverage["enumerated_exhaustively"] = enumerated
+    if fuzz_info:
+        coverage["coverage_guided_fuzzing"] = fuzz_info
+        evaluations += sum(i["valid_cases"] for i in fuzz_info.values())
+        coverage["evaluations"] = int(evaluations)
     slow = sorted((x for m in merged.values() for x in m["slowest"]), key=lambda x: -x[0])[:3]
     if slow:
         coverage["slowest_cases_s"] = [{"seconds": t, "case": c[:600]} for t, c in slow]
@@ -446,6 +467,52 @@ def run_check(prop, tier, seed_value, examples=None, only_profile=None, workers=
         if violations == 0:
             return 2
     return 1 if violations else 0
+
+
+def run_fuzz_campaign(prop, pname, runs, seed_value, nproc):
+    """16 independent libFuzzer processes (different -seed, own corpus) on one profile; scratch under .deps/fuzz."""
+    import re, shutil, importlib.util
+    if importlib.util.find_spec("atheris") is None:
+        return {"skipped": "atheris is not importable and could not be installed offline", "valid_cases": 0, "violations": [], "errors": []}
+    base = os.path.join(core.VERIF, ".deps", "fuzz", "%s-%s" % (prop, pname))
+    shutil.rmtree(base, ignore_errors=True)
+    procs = []
+    env = dict(os.environ)
+    for i in range(min(16, nproc)):
+        work = os.path.join(base, "shard%d" % i)
+        os.makedirs(work, exist_ok=True)
+        log = open(os.path.join(work, "log.txt"), "w")
+        sd = 1 + core.hash32(seed_value, prop, pname, "fuzz", i) % (2 ** 31 - 2)
+        procs.append((subprocess.Popen([sys.executable, "-m", "vp.fuzz", prop, pname, "--runs", str(runs), "--seed", str(sd), "--work", work],
+                                       cwd=core.VERIF, env=env, stdout=log, stderr=subprocess.STDOUT), work, log))
+    info = {"tool": "atheris (libFuzzer) on test.hypothesis.fuzz_one_input; dfols instrumented for edge coverage", "shards": len(procs),
+            "runs_per_shard": runs, "executions": 0, "valid_cases": 0, "nontrivial_cases": 0, "edges_covered_max": 0, "corpus_units": 0,
+            "violations": [], "errors": []}
+    for p, work, log in procs:
+        try:
+            p.wait(timeout=6 * 3600)
+        except subprocess.TimeoutExpired:
+            p.kill()
+        log.close()
+        try:
+            st = json.load(open(os.path.join(work, "stats.json")))
+            info["executions"] += st["execs"]
+            info["valid_cases"] += st["valid"]
+            info["nontrivial_cases"] += st["nontrivial"]
+        except Exception as e:
+            info["errors"].append("fuzz shard %s: no stats (%r)" % (work, e))
+        txt = open(os.path.join(work, "log.txt"), errors="replace").read()
+        covs = re.findall(r"cov: (\d+) ft: (\d+) corp: (\d+)", txt)
+        if covs:
+            info["edges_covered_max"] = max(info["edges_covered_max"], int(covs[-1][0]))
+            info["corpus_units"] += int(covs[-1][2])
+        vpath = os.path.join(work, "violation.json")
+        if os.path.exists(vpath):
+            info["violations"].append(json.load(open(vpath)))
+        elif p.returncode not in (0, None) and "stats" not in info["errors"][-1:] and not covs:
+            info["errors"].append("fuzz shard %s exited with %s: %s" % (work, p.returncode, txt[-400:]))
+    shutil.rmtree(base, ignore_errors=True)
+    return info
 
 
 def validate_evidence(evidence):
